@@ -20,12 +20,21 @@ JOBS = list(JOBS) + [
       safety=[], cbmc=["--no-standard-checks"], fuc=["myth_uncond_signal_body"], timeout=200,
       note="control flow only: loop contract with inferred frame (any number of polls), safety checks off, push accepted with any arguments"),
 ]
+JOBS = list(JOBS) + [
+  Job("c08.signal.any_polls", TU, "h_uncond_signal", replace=["myth_queue_push/push_contract"], replace_calls=["myth_yield_body:verif_yield_sig"],
+      read_hooks=[("th", "verif_rd_th")], defines=["-DSPIN_ANY=1"],
+      loops={"myth_uncond_signal_body": [dict(loop_id="0", assigns="to_wake, U.th, g_arrived",
+             invariants="(to_wake == 0 || to_wake == &TH0) && (U.th == 0 || U.th == &TH0) && g_pushed == 0",
+             symbol_map="to_wake,myth_uncond_signal_body::1::to_wake")]}, loop_counts={"myth_uncond_signal_body": 1},
+      fuc=["myth_uncond_signal_body"], timeout=200,
+      note="the data obligations of signal for ANY number of polls: loop contract on the spin, frame = the local it spins on and the word (termination of the spin is liveness, not proved)"),
+]
 # the public API functions are one-line forwarders to the bodies under contract: checked mechanically (DESIGN §3.5b)
 from units.common_forward import forward_job
 JOBS = list(JOBS) + [forward_job("c08")]
 META = {
  "level": "proof",
- "level_text": "Call-protocol contracts on the real uncond wait/signal bodies: the waiter becomes visible only from the post-switch callback, the signaller clears the word before publishing exactly the waiter it read, and does not return before the hand-over. The signaller's spin is a bounded stand-in (waiter arrives within 3 polls).",
+ "level_text": "Call-protocol contracts on the real uncond wait/signal bodies: the waiter becomes visible only from the post-switch callback, the signaller clears the word before publishing exactly the waiter it read, and does not return before the hand-over. The signaller's spin is closed by a loop contract (job c08.signal.any_polls: any number of polls); the bounded jobs are kept as a cross-check.",
  "level_note": "Trusted: cbmc 6.11, context-switch stubs (C03), run queue contracts (C02). 'The waiter does not resume without a signal' relies on the scheduler fact that only run-queue entries are resumed.",
  "trusted_base": ["cbmc 6.11.0 (goto-cc, goto-instrument --dfcc, SAT back end)", "gcc -E of the real headers (rules R1, R2, R4)"],
  "explanation": "uncondition variable: call-protocol contracts",
@@ -33,6 +42,6 @@ META = {
    "exactly one waiter and one signaller per use (the documented usage)",
    "context switch primitives replaced by control-flow stubs (verif_ctx.h)",
    "the waiter does not resume without a signal: only run-queue entries are resumed (scheduler fact, C02)",
-   "the signaller's spin for a late waiter: the data obligations (which thread is handed over, bound to which worker, word cleared first) are checked with the waiter arriving within 3 polls (bounded; thorough tier 8); that signal never RETURNS without having handed a waiter over is proved for any number of polls by job c08.signal.no_early_return (loop contract with inferred frame, control flow only: safety checks off and the push accepted with any arguments there); termination of the spin is liveness",
+   "the signaller's spin for a late waiter: the data obligations (which thread is handed over, bound to which worker, word cleared first) are proved for any number of polls by job c08.signal.any_polls (loop contract on the spin with the explicit frame {to_wake, u->th}; a local added to the spin is benign-listed there) and cross-checked bounded with the waiter arriving within 3 polls (thorough tier 8); that signal never RETURNS without having handed a waiter over is proved for any number of polls by job c08.signal.no_early_return (loop contract with inferred frame, control flow only: safety checks off and the push accepted with any arguments there); termination of the spin is liveness",
  ],
 }
